@@ -1426,10 +1426,15 @@ class CircuitIR(AbstractBaseIR):
         Union[str, ComputeVar]
             Either the backend variable or its name.
         """
-        try:
-            v = self[var]
-        except KeyError:
+        # frontend paths (`node/op/var`) are resolved through the frontend-to-backend map first: their first component
+        # (a node label) may coincide with the name of a backend variable
+        if var in self._front_to_back:
             v = self._front_to_back[var]
+        else:
+            try:
+                v = self[var]
+            except KeyError:
+                v = self._front_to_back[var]
         return v.name if get_key else v
 
     def get_frontend_varname(self, var: str) -> str:
